@@ -23,6 +23,7 @@ pub fn sim_config(scn: &Scenario, record_trace: bool) -> SimConfig {
         num_cpus: scn.sim.num_cpus,
         record_trace,
         wall_epoch_ns: 1_700_000_000_000_000_000,
+        timer_late_max_ns: scn.sim.timer_late_us * 1000,
     }
 }
 
